@@ -288,6 +288,16 @@ def run(ctx):
                                        f'{enc_str(tok.get("pos", "_"))} {hs[i]} {enc_str(str(leaf.cat))}'
                                        for i, (tok, leaf) in enumerate(zip(t.tokens, t.leaves)))
                         cases.append(('conll_dec', 'conll_dec ' + enc_str(body), f'ok {len(t.tokens)}' + rows, desc))
+                    # the whole output through the document reader (theorems conll_doc_decode / main_conll_reads_back):
+                    # sentence numbers, score texts and the rows of every record
+                    want_doc = f'ok {len(flat)}'
+                    for (n, t), st in zip(flat, [st for sent in batch for st in sent]):
+                        hs = conll_heads(t)
+                        want_doc += f' ## {n} {enc_str(f"{st.score:.8f}")} {len(t.tokens)}' + ''.join(
+                            f' || {i + 1} {enc_str(esc(tok["word"]))} {enc_str(tok.get("lemma", "_"))} {enc_str(tok.get("pos", "_"))} '
+                            f'{enc_str(tok.get("pos", "_"))} {hs[i]} {enc_str(str(leaf.cat))}'
+                            for i, (tok, leaf) in enumerate(zip(t.tokens, t.leaves)))
+                    cases.append(('conll_doc', 'conll_doc ' + enc_str(out + '\n'), want_doc, desc))
             if f == 'prolog' and prolog_guard(lang, [t for _, t in flat]):
                 try:
                     want_p = f'ok {len(flat)}' + ''.join(f' || {n} ' + (pview_en(t) if lang == 'en' else pview_ja(t)) for n, t in flat)
